@@ -135,6 +135,82 @@ theorem respond_fault (cfg : Cfg) (q : Req) (p : Params) (reply : Reply)
     repeat' split
     all_goals simp_all
 
+/-! ### instances with a custom `ErrorMapper` -/
+
+/-- **An `ErrorMapper` that declines an error changes nothing**: the front end's own conversion (the gRPC table, 500 for an
+error without gRPC status) applies, exactly as on an instance without a mapper. -/
+theorem mapper_declined_uses_table (cfg : Cfg) (e : BErr) (h : cfg.mapper e = none) :
+    toHTTPStatus cfg e = toHTTPStatus { cfg with mapper := fun _ => none } e := by
+  unfold toHTTPStatus
+  simp only [h]
+
+/-- the mapper only ever produces error statuses -/
+def MapperSane (cfg : Cfg) : Prop := ∀ e s, cfg.mapper e = some s → s ≠ 200 ∧ 400 ≤ s
+
+theorem err_status_ne_200_mapper (cfg : Cfg) (e : BErr) (hm : MapperSane cfg) (he : e ≠ .code 0) :
+    toHTTPStatus cfg e ≠ 200 ∧ 400 ≤ toHTTPStatus cfg e := by
+  cases h : cfg.mapper e with
+  | none => exact err_status_ne_200 cfg e h he
+  | some s =>
+    have := hm e s h
+    unfold toHTTPStatus
+    simp only [h]
+    exact this
+
+/-- **fault_never_200 with any sane `ErrorMapper`** (response stage): whatever the mapper converts or declines, a faulty
+reply is never answered 200 and never yields an SCT. -/
+theorem respond_fault_mapper (cfg : Cfg) (q : Req) (p : Params) (reply : Reply)
+    (hm : MapperSane cfg) (hf : isFault p reply = true) :
+    (respond cfg q p reply).status ≠ 200 ∧ (respond cfg q p reply).sct = false ∧ 400 ≤ (respond cfg q p reply).status := by
+  have herr : ∀ e, e ≠ BErr.code 0 → toHTTPStatus cfg e ≠ 200 ∧ 400 ≤ toHTTPStatus cfg e :=
+    fun e he => err_status_ne_200_mapper cfg e hm he
+  have hplain := herr .plain (by simp)
+  cases reply with
+  | err e =>
+    have := herr e (by simpa [isFault] using hf)
+    cases p <;> simp [respond] <;> exact this
+  | queue a b c d e =>
+    cases p <;> simp [respond, isFault] at hf ⊢
+    unfold respondQueue
+    repeat' split
+    all_goals simp_all
+  | sth r =>
+    cases p <;> simp [respond, isFault] at hf ⊢
+    unfold respondSth
+    split
+    · simp [hplain]
+    · simp_all
+  | cons r pp hl =>
+    cases p <;> simp [respond, isFault] at hf ⊢
+    unfold respondCons
+    repeat' split
+    all_goals simp_all
+  | proofs r ps =>
+    cases p <;> simp [respond, isFault] at hf ⊢
+    unfold respondProofs
+    repeat' split
+    all_goals simp_all
+  | leaves r f idxs =>
+    cases p <;> simp [respond, isFault] at hf ⊢
+    unfold respondLeaves
+    repeat' split
+    all_goals simp_all
+    all_goals omega
+  | entry r f lp lvl pp nh =>
+    cases p <;> simp [respond, isFault] at hf ⊢
+    unfold respondEntry
+    repeat' split
+    all_goals simp_all
+
+/-- the mappers the correspondence harness configures are sane, and each declines something (so the fall-back is exercised) -/
+theorem harness_mappers_sane (n : Nat) (cfg : Cfg) (h : cfg.mapper = mapperOf n) : MapperSane cfg := by
+  intro e s hs
+  rw [h] at hs
+  unfold mapperOf at hs
+  split at hs <;> simp at hs <;> omega
+
+example : mapperOf 3 (.code 8) = none ∧ mapperOf 3 (.code 5) = some 410 ∧ mapperOf 2 .plain = some 503 := by decide
+
 /-- the fault is "the caller asked beyond the current tree" (the only caller-caused condition a reply can reveal) -/
 def beyondTree : Params → Reply → Bool
   | .cons _ second, .cons r _ _ => r.present && r.decodes && decide ((r.size : Int) < U64.wrap second)
